@@ -132,7 +132,7 @@ def by_first(res):
         return []
     if isinstance(sel, dict):
         return {}
-    return res
+    return res          # tuples included: a tuple argument gets the full report
 
 
 def apply_ret(ret, res):
@@ -279,17 +279,96 @@ def hash_twin(v):
         return None
     if isinstance(v, int):
         return -2 if v == -1 else -1 if v == -2 else v + M61 if v >= 0 else v - M61
-    if isinstance(v, list) and v[0] == 'list':
+    if isinstance(v, list) and v[0] in ('list', 'tuple'):
         for i, x in enumerate(v[1]):
             t = hash_twin(x)
             if t is not None:
-                return ['list', v[1][:i] + [t] + v[1][i + 1:]]
+                return [v[0], v[1][:i] + [t] + v[1][i + 1:]]
     if isinstance(v, list) and v[0] == 'dict':
         for i, (k, x) in enumerate(v[1]):
             t = hash_twin(x)
             if t is not None:
                 return ['dict', [list(kv) for kv in v[1][:i]] + [[k, t]] + [list(kv) for kv in v[1][i + 1:]]]
     return None
+
+
+def _is_tagged(v, *tags):
+    return isinstance(v, list) and len(v) == 2 and v[0] in (tags or ('list', 'tuple', 'dict'))
+
+
+def shape_twin(v):
+    """a container of another type with the same content: list <-> tuple, dict -> list of (key, value) pairs; None for scalars"""
+    if _is_tagged(v, 'list'):
+        return ['tuple', v[1]]
+    if _is_tagged(v, 'tuple'):
+        return ['list', v[1]]
+    if _is_tagged(v, 'dict'):
+        return ['list', [['tuple', [k, x]] for k, x in v[1]]]
+    return None
+
+
+def nested_twin(v):
+    """the same container with the first container INSIDE it replaced by its shape twin; None if there is none"""
+    if _is_tagged(v, 'list', 'tuple'):
+        for i, x in enumerate(v[1]):
+            t = shape_twin(x)
+            if t is not None:
+                return [v[0], v[1][:i] + [t] + v[1][i + 1:]]
+    if _is_tagged(v, 'dict'):
+        for i, (k, x) in enumerate(v[1]):
+            t = shape_twin(x)
+            if t is not None:
+                return ['dict', [list(kv) for kv in v[1][:i]] + [[k, t]] + [list(kv) for kv in v[1][i + 1:]]]
+    return None
+
+
+def _twin_call(fn, args, kwargs):
+    for i, v in enumerate(args):
+        t = fn(v)
+        if t is not None:
+            return args[:i] + [t] + args[i + 1:], kwargs, v, 'positional'
+    for i, (k, v) in enumerate(kwargs):
+        t = fn(v)
+        if t is not None:
+            return args, [list(kv) for kv in kwargs[:i]] + [[k, t]] + [list(kv) for kv in kwargs[i + 1:]], v, 'keyword'
+    return None
+
+
+def twin_label(v, kind):
+    if kind == 'nested':
+        return 'nested_container_twin'
+    if _is_tagged(v) and len(v[1]) == 0:
+        return 'empty_container_twins'
+    return 'dict_vs_pairs_twin' if _is_tagged(v, 'dict') else 'list_tuple_twin'
+
+
+def check_twin_calls(what, w, s, args, kwargs, ret, log, n0, evals, cls):
+    """
+    under a cache layer, after the call (args, kwargs) has been made: calls that are DISTINCT argument combinations but look alike -
+    equal python hash (-1/-2, n/n+2**61-1), or the same content in a container of another type ([] / () / {}, [1,2] / (1,2),
+    {'a':1} / [('a',1)], also one level down). Each must be evaluated on its own and return its own result.
+    """
+    first = call_text(s, args, kwargs)
+    for kind, fn in (('hash', hash_twin), ('shape', shape_twin), ('nested', nested_twin)):
+        tw = _twin_call(fn, args, kwargs)
+        if tw is None:
+            continue
+        targs, tkwargs, v, where = tw
+        texp = apply_ret(ret, expected(s, targs, tkwargs)[0])
+        a, k = bvals(targs, tkwargs)
+        r = call('%s for %s' % (what, call_text(s, targs, tkwargs)), w, *a, **k)
+        evals += 1
+        check(len(log) - n0 == evals, '%s for %s, called after %s: a distinct argument combination (%s distinct so far), but f was evaluated %s times in all',
+              what, call_text(s, targs, tkwargs), first, evals, len(log) - n0)
+        check(same(r, texp), '%s for %s (called after %s) returned %s, f returns %s', what, call_text(s, targs, tkwargs), first, r, texp)
+        if kind == 'hash':
+            cls.append('hash_colliding_arguments')
+            cls.append('hash_colliding:' + ('nested' if _is_tagged(v) else where))
+        else:
+            cls.append('container_twin_arguments')
+            cls.append(twin_label(v, kind))
+            cls.append('container_twin:' + where)
+    return evals
 
 
 def hash_twin_call(args, kwargs):
@@ -457,7 +536,17 @@ def direct(f, s, args, kwargs, exp):
 _scal = st.one_of(st.integers(-3, 6), st.sampled_from(['', 'a', 'ab', 'b']), st.none())
 _cont = st.one_of(st.lists(st.integers(-3, 6), max_size=3).map(lambda v: ['list', v]),
                   st.lists(st.tuples(st.sampled_from(['k', 'm', 'a']), st.integers(-3, 6)), max_size=2, unique_by=lambda kv: kv[0]).map(lambda v: ['dict', [list(kv) for kv in v]]))
-_val = st.one_of(_scal, _scal, _cont)
+_ints = st.integers(-3, 6)
+# containers that are twins of one another by content: tuples, lists / tuples of (key, value) pairs, one level of nesting
+_cont2 = st.one_of(
+    st.lists(_ints, max_size=3).map(lambda v: ['tuple', v]),
+    st.lists(st.tuples(st.sampled_from(['k', 'm', 'a']), _ints), max_size=2, unique_by=lambda kv: kv[0]).flatmap(
+        lambda v: st.sampled_from([['list', [['tuple', list(kv)] for kv in v]], ['tuple', [['tuple', list(kv)] for kv in v]], ['dict', [list(kv) for kv in v]]])),
+    st.tuples(st.sampled_from(['list', 'tuple']), st.sampled_from(['list', 'tuple']), st.lists(_ints, max_size=2)).map(lambda t: [t[0], [[t[1], t[2]]]]),
+    st.tuples(st.sampled_from(['list', 'tuple']), st.lists(_ints, max_size=2)).map(lambda t: ['dict', [['k', [t[0], t[1]]]]]),
+    st.sampled_from([['list', []], ['tuple', []], ['dict', []]]),
+)
+_val = st.one_of(_scal, _scal, _cont, _cont2)
 
 
 @st.composite
@@ -585,18 +674,7 @@ def run_transparent(spec):
             check(len(log) - n0 == 1, '%s for %s: the same call again evaluated f again (%s evaluations in all); f returns %s',
                   what, call_text(s, args, kwargs), len(log) - n0, exp)
             check(same(r, exp), '%s for %s: the same call again returned %s, the first result was %s', what, call_text(s, args, kwargs), r, exp)
-            tw = hash_twin_call(args, kwargs)
-            if tw is not None:
-                # a distinct argument combination whose hash equals that of the first one: its own evaluation, its own result
-                targs, tkwargs, where = tw
-                texp = apply_ret(ret, expected(s, targs, tkwargs)[0])
-                a, k = bvals(targs, tkwargs)
-                r = call('%s for %s' % (what, call_text(s, targs, tkwargs)), w, *a, **k)
-                check(len(log) - n0 == 2, '%s for %s, called after %s: a distinct argument combination, but f was evaluated %s times in all',
-                      what, call_text(s, targs, tkwargs), call_text(s, args, kwargs), len(log) - n0)
-                check(same(r, texp), '%s for %s (after %s) returned %s, f returns %s', what, call_text(s, targs, tkwargs), call_text(s, args, kwargs), r, texp)
-                cls.append('hash_colliding_arguments')
-                cls.append('hash_colliding:' + where)
+            check_twin_calls(what, w, s, args, kwargs, ret, log, n0, 1, cls)
         check_argspec(what, w, f)
         check_binding(what, w, f, s, args, kwargs, exp, callargs)
         nt = nt or len(stack) >= 2 or (nkw >= 1 and ndef >= 1)
@@ -951,6 +1029,13 @@ def s_same_code(draw):
             ops.append([fn, kind, [], []])
         else:
             args, kwargs = draw(s_call(s))
+            earlier = [op for op in ops if op[1] != 'spec']
+            if earlier and draw(st.sampled_from([False, True, True])):
+                # an earlier call again, on the same function, with one container argument in another type (or nested one level down)
+                src = draw(st.sampled_from(earlier))
+                tw = _twin_call(draw(st.sampled_from([shape_twin, shape_twin, nested_twin])), src[2], src[3])
+                if tw is not None:
+                    fn, args, kwargs = src[0], tw[0], tw[1]
             ops.append([fn, kind, args, kwargs])
     calls = [(op[2], op[3]) for op in ops if op[1] != 'spec']
     ok = [nm for nm in DECOS if all(admissible(nm, dict(s, dvals=dv), a, k) for a, k in calls for dv in dvals)]
@@ -960,6 +1045,15 @@ def s_same_code(draw):
         c = draw(st.sampled_from(klasses))
         stack.append(draw(st.sampled_from([nm for nm in ok if KLASS[nm] == c])))
     return dict(sig=s, form=draw(st.sampled_from(['def', 'lambda'])), dvals=dvals, stack=stack, ops=ops)
+
+
+def _content(v):
+    """a value spec with the container types forgotten: twins by content have the same _content"""
+    if _is_tagged(v, 'list', 'tuple'):
+        return ['seq', [_content(x) for x in v[1]]]
+    if _is_tagged(v, 'dict'):
+        return ['seq', [['seq', [k, _content(x)]] for k, x in v[1]]]
+    return v
 
 
 def run_same_code(spec):
@@ -1000,6 +1094,16 @@ def run_same_code(spec):
     for fn in range(nf - 1, -1, -1):
         check_argspec('%s [function %i of %i from one %s factory]' % (what, fn, nf, form), ws[fn], fs[fn])
     switches = sum(1 for a, b in zip(inspected, inspected[1:]) if a != b)
+    twins = False
+    if 'cache' in stack:
+        seen = {}
+        for fn, kind, args, kwargs in ops:
+            if kind != 'spec':
+                shape = repr((fn, [_content(a) for a in args], sorted((k, repr(_content(v))) for k, v in kwargs)))
+                exact = repr((fn, args, sorted(kwargs)))
+                if shape in seen and exact not in seen[shape]:
+                    twins = True
+                seen.setdefault(shape, set()).add(exact)
     cls = ['form=' + form, 'functions=%i' % nf, 'depth=%i' % len(stack)]
     if switches >= 2:
         cls.append('interleaved')
@@ -1009,6 +1113,10 @@ def run_same_code(spec):
         cls.append('falsy_default')
     if len(ops) > len(set(op[0] for op in ops)):
         cls.append('same_function_bound_or_called_twice')
+    if 'cache' in stack:
+        cls.append('cached')
+    if twins:
+        cls.append('container_twins_in_cached_history')
     return dict(nt=unfilled_later, cls=cls)
 
 
@@ -1025,7 +1133,7 @@ def _long_call(s, npos, nkw, kw_order):
 
 def large_cases():
     for N in LARGE:
-        for shape in ['positional', 'keyword', 'same_len_first_last', 'pos+kw', 'list', 'minus1_minus2', 'mersenne', 'nested_minus1_minus2']:
+        for shape in ['positional', 'keyword', 'same_len_first_last', 'pos+kw', 'list', 'minus1_minus2', 'mersenne', 'nested_minus1_minus2', 'container_twins']:
             for order in ['same', 'reversed', 'rotated']:
                 for ret in [None, ['by_first']]:
                     yield dict(part='cache_keys', N=N, shape=shape, order=order, ret=ret)
@@ -1074,6 +1182,11 @@ def _large_key(shape, i):
         return [i // 2 + (i % 2) * M61], []
     if shape == 'nested_minus1_minus2':
         return [['list', [-1 - i % 2, i // 2]]], []
+    if shape == 'container_twins':
+        # the same content in a dict, a list of pair tuples, a tuple of pair tuples, a list of pair lists; by position or by keyword; every 8th empty-ish
+        j = i // 4
+        v = [['dict', [['k', j]]], ['list', [['tuple', ['k', j]]]], ['tuple', [['tuple', ['k', j]]]], ['list', [['list', ['k', j]]]]][i % 4]
+        return ([v], []) if j % 2 else ([], [['a', v]])
     return [['list', [i // 16, i % 16]]], []
 
 
@@ -1107,7 +1220,8 @@ def run_large(spec):
             check(len(log) == N, 'cache(f) holding %s keys: key number %s was passed again and f was evaluated again (%s evaluations)', N, i, len(log))
             check(same(r, first[i]), 'cache(f) holding %s keys: key number %s returned %s, its first result was %s', N, i, r, first[i])
         return dict(nt=True, cls=['cache_keys', 'N=%i' % N, 'shape=' + spec['shape'], 'order=' + spec['order']] + (['falsy_results'] if ret else [])
-                    + (['hash_colliding_arguments'] if 'minus' in spec['shape'] or spec['shape'] == 'mersenne' else []))
+                    + (['hash_colliding_arguments'] if 'minus' in spec['shape'] or spec['shape'] == 'mersenne' else [])
+                    + (['container_twin_arguments'] if spec['shape'] == 'container_twins' else []))
     s, stack = spec['sig'], spec['stack']
     args, kwargs = _long_call(s, spec['npos'], spec['nkw'], spec['kw_order'])
     for nm in stack:
@@ -1206,16 +1320,7 @@ def run_grid(spec):
         check(same(r, exp), '%s for %s returned %s, f itself returns %s', what, txt, r, exp)
         if nm == 'cache':
             check(len(log) - n0 == 1, '%s for %s (fresh cache) evaluated f %s times', what, txt, len(log) - n0)
-            tw = hash_twin_call(args, kwargs)
-            if tw is not None:
-                targs, tkwargs, where = tw
-                texp = expected(s, targs, tkwargs)[0]
-                a, k = bvals(targs, tkwargs)
-                r = call('%s for %s' % (what, call_text(s, targs, tkwargs)), w, *a, **k)
-                check(len(log) - n0 == 2, '%s for %s, called after %s: a distinct argument combination, but f was evaluated %s times in all',
-                      what, call_text(s, targs, tkwargs), txt, len(log) - n0)
-                check(same(r, texp), '%s for %s (after %s) returned %s, f returns %s', what, call_text(s, targs, tkwargs), txt, r, texp)
-                cls.append('hash_colliding_arguments')
+            check_twin_calls(what, w, s, args, kwargs, None, log, n0, 1, cls)
             for v in FALSY:
                 logc = []
                 wc = wrap(['cache'], make_fn(s, logc, ret=['const', v]))
@@ -1256,8 +1361,20 @@ def run_grid(spec):
 
 # None first: hypothesis favours / shrinks towards small indices. From index 6 on: hash twins of other members
 # (hash(-1) == hash(-2), hash(0) == hash(2**61 - 1), hash(1) == hash(2**61), equal hashes of the tuples the lists are normalised to)
-POOL = [None, 0, 1, 'a', ['list', [1, 2]], ['dict', [['k', 1]]], -1, -2, M61, M61 + 1, ['list', [-1, 3]], ['list', [-2, 3]]]
+POOL = [None, 0, 1, 'a', ['list', [1, 2]], ['dict', [['k', 1]]], -1, -2, M61, M61 + 1, ['list', [-1, 3]], ['list', [-2, 3]],
+        # from index 12 on: containers with the same content but another type - distinct arguments since fix F27
+        ['list', []], ['dict', []], ['tuple', []],                                                                   # 12 13 14
+        ['tuple', [1, 2]],                                                                                           # 15 (twin of 4)
+        ['dict', [['a', 1]]], ['list', [['tuple', ['a', 1]]]], ['tuple', [['tuple', ['a', 1]]]],                      # 16 17 18
+        ['list', [['list', [1]]]], ['list', [['tuple', [1]]]],                                                        # 19 20
+        ['dict', [['k', ['list', [1]]]]], ['dict', [['k', ['tuple', [1]]]]],                                          # 21 22
+        # one dict written in two insertion orders: the SAME argument
+        ['dict', [['k', 1], ['m', 2]]], ['dict', [['m', 2], ['k', 1]]]]                                               # 23 24
 TWIN_IDX = {6: 7, 7: 6, 1: 8, 8: 1, 2: 9, 9: 2, 10: 11, 11: 10}
+SHAPE_GROUPS = {'empty_container_twins': [12, 13, 14], 'list_tuple_twin': [4, 15], 'dict_vs_pairs_twin': [16, 17, 18],
+                'nested_container_twin': [19, 20], 'nested_in_dict_twin': [21, 22]}
+SHAPE_OF = {i: g for g, idx in SHAPE_GROUPS.items() for i in idx}
+SAME_DICT = (23, 24)
 CACHED = [
     dict(sig=dict(n=2, d=1, va=False, vk=False), stack=['cache']),
     # same signature, separate wrapper: caches must not be shared. Returns None / 0 / False / '' / [] / {} depending on its first argument
@@ -1268,10 +1385,10 @@ CACHED = [
 
 
 def _tok(v):
-    """canonical key of a value spec from the pool (type-strict, structure-preserving) - independent of the library's key"""
+    """canonical key of a value spec from the pool (type-strict, structure-preserving; a dict is its set of items) - independent of the library's key"""
     if isinstance(v, list):
-        if v[0] == 'list':
-            return ('list',) + tuple(_tok(x) for x in v[1])
+        if v[0] in ('list', 'tuple'):
+            return (v[0],) + tuple(_tok(x) for x in v[1])
         return ('dict',) + tuple(sorted((k, _tok(x)) for k, x in v[1]))
     return (type(v).__name__, v)
 
@@ -1285,9 +1402,10 @@ class CacheModel(object):
         'twin': dict(j=st.integers(0, 40)),
         'same_on_other': dict(j=st.integers(0, 40)),
         'collide': dict(j=st.integers(0, 40), which=st.integers(0, 5)),
+        'retype': dict(j=st.integers(0, 40), which=st.integers(0, 5), step=st.integers(1, 2)),
     }
     PRE = {'recall': lambda m: len(m.history) > 0, 'twin': lambda m: len(m.history) > 0, 'same_on_other': lambda m: len(m.history) > 0,
-           'collide': lambda m: len(m.history) > 0}
+           'collide': lambda m: len(m.history) > 0, 'retype': lambda m: len(m.history) > 0}
 
     def __init__(self):
         self.logs = [[] for _ in CACHED]
@@ -1341,6 +1459,19 @@ class CacheModel(object):
             self.flags.add('same_arguments_on_two_functions')
         canon = lambda idx: min(idx, TWIN_IDX.get(idx, idx))
         ckey = (tuple(canon(i) for i in args_i), tuple(sorted((k, canon(i)) for k, i in kwargs_i)))
+        scanon = lambda idx: ('grp', SHAPE_OF[idx]) if idx in SHAPE_OF else idx
+        skey = (tuple(scanon(i) for i in args_i), tuple(sorted((k, str(scanon(i))) for k, i in kwargs_i)))
+        for h in self.history:
+            if h[0] == fn and h[3] != key and h[6] == skey:
+                self.flags.add('container_twin_in_history')
+                for i in list(args_i) + [i for _, i in kwargs_i]:
+                    if i in SHAPE_OF and i not in h[1] + [x for _, x in h[2]]:
+                        self.flags.add(SHAPE_OF[i] + '_in_history')
+                        if SHAPE_OF[i] == 'dict_vs_pairs_twin' and 16 not in (list(args_i) + [x for _, x in kwargs_i] + h[1] + [x for _, x in h[2]]):
+                            self.flags.add('pairs_list_vs_pairs_tuple_in_history')
+            if h[0] == fn and h[3] == key and any(a in SAME_DICT and b in SAME_DICT and a != b
+                                                  for a, b in zip(list(args_i) + [i for _, i in sorted(kwargs_i)], h[1] + [i for _, i in sorted(h[2])])):
+                self.flags.add('hit_with_dict_in_other_insertion_order')
         for h in self.history:
             if h[0] == fn and h[3] != key and h[5] == ckey:
                 self.flags.add('hash_colliding_arguments')
@@ -1349,7 +1480,7 @@ class CacheModel(object):
         bound = _tok_bound(echo)
         if any(h[0] == fn and h[3] != key and h[4] == bound for h in self.history):
             self.flags.add('same_binding_other_split')
-        self.history.append((fn, list(args_i), [list(kv) for kv in kwargs_i], key, bound, ckey))
+        self.history.append((fn, list(args_i), [list(kv) for kv in kwargs_i], key, bound, ckey, skey))
 
     # --- operations
     def op_call(self, fn, vals, k, omit, xkw, rev):
@@ -1404,6 +1535,32 @@ class CacheModel(object):
             kwargs_i[which % len(kwargs_i)][1] = 6 + which % 2
         self._do(fn, args_i, kwargs_i)
 
+    def op_retype(self, j, which, step):
+        """an earlier call with one container argument replaced by a container of another type with the same content ([] -> {} -> (),
+        [1,2] <-> (1,2), {'a':1} -> [('a',1)] -> (('a',1),), one level down too), or a dict by the same dict in another insertion order"""
+        fn, args_i, kwargs_i = self.history[j % len(self.history)][:3]
+        args_i, kwargs_i = list(args_i), [list(kv) for kv in kwargs_i]
+        ok = lambda v: v in SHAPE_OF or v in SAME_DICT
+
+        def nxt(v):
+            if v in SAME_DICT:
+                return SAME_DICT[1 - SAME_DICT.index(v)]
+            grp = SHAPE_GROUPS[SHAPE_OF[v]]
+            return grp[(grp.index(v) + step) % len(grp)]
+        slots = [('a', i) for i, v in enumerate(args_i) if ok(v)] + [('k', i) for i, (k, v) in enumerate(kwargs_i) if ok(v)]
+        plant = [12, 4, 16, 19, 21, 23][which]
+        if slots:
+            kind, i = slots[which % len(slots)]
+            if kind == 'a':
+                args_i[i] = nxt(args_i[i])
+            else:
+                kwargs_i[i][1] = nxt(kwargs_i[i][1])
+        elif args_i:
+            args_i[-1] = plant       # the last positional: usually not the argument that decides the return mode
+        elif kwargs_i:
+            kwargs_i[which % len(kwargs_i)][1] = plant
+        self._do(fn, args_i, kwargs_i)
+
     def op_same_on_other(self, j):
         """function 0 and 1 share a signature: replay a call of the one on the other"""
         fn, args_i, kwargs_i = self.history[j % len(self.history)][:3]
@@ -1438,11 +1595,12 @@ SUBS = [
              'non-raising f; result == own binding model == direct call, getargspec fields == inspect.getfullargspec(f) before and after the call, '
              'getcallargs / call_with_callargs through the stack; in half the cases the same decorator objects then wrap a second function with '
              'another signature. A third of the signatures use names that are prefixes of one another (a, ab, abc, abcd), a third defaults None/0/\'\'/False; **vk functions also get keywords spelled like wrapper parameters (function, value, exc, cache, types, repeat) and the ORDER in which extra keywords reach f is part of its report; class decorators are applied as D(f) or D()(f). In ~30% of the cases f returns a constant None / 0 / False / '' / [] / {} instead of its report; with a cache layer anywhere in the stack the same call is made twice: f evaluated exactly once (counted by side channel), same result. non-trivial = stack of >= 2 decorators, or >= 1 keyword argument and >= 1 default relied on',
-        floor=0.5, class_floors={'depth=3': 0.15, 'kw+default': 0.07, 'second_function_same_decorators': 0.15, 'has:cache_func': 0.15, 'has:loops': 0.15,
+        floor=0.5, class_floors={'depth=3': 0.15, 'kw+default': 0.07, 'second_function_same_decorators': 0.15, 'has:cache_func': 0.15, 'has:loops': 0.07,
                                  'has:pd2np': 0.12, 'has:kwargs_support': 0.12, 'has:try_back': 0.15, 'has:try_value': 0.15,
                                  'f_returns_None': 0.08, 'f_returns_falsy': 0.08, 'cached_result_is_None': 0.03, 'cached_result_is_falsy': 0.03,
                                  'names_prefixes_of_one_another': 0.1, 'two_step_spelling': 0.1, 'keyword_named_like_wrapper_parameter': 0.04, 'keyword_named_function': 0.01,
-                                 'hash_colliding_arguments': 0.15,
+                                 'hash_colliding_arguments': 0.15, 'container_twin_arguments': 0.1, 'empty_container_twins': 0.01, 'list_tuple_twin': 0.03,
+                                 'dict_vs_pairs_twin': 0.015, 'nested_container_twin': 0.01,
                                  'two_extra_keywords_in_order': 0.06, 'falsy_default_relied_on': 0.025}),
     Sub('rewrap', lambda tier: s_rewrap(include_known_defect=REWRAP_DEEP), run_rewrap, quick=1500, thorough=20000,
         rule='stack of 1-3 decorators of distinct classes built on f, then wrapped again with a decorator of a class already in the stack (possibly another '
@@ -1471,15 +1629,18 @@ SUBS = [
                     'the first result. Three of the four functions return None / 0 / False / '' / [] / {} depending on their first argument (else the full report with its evaluation number); evaluations are counted through a list closed over by f, never through the result. non-trivial = a key repeated after an intervening call with another key on that function',
                floor=0.3, class_floors={'hit_after_other_key': 0.3, 'hit_with_keywords_reordered': 0.05, 'hit_with_container_argument': 0.1,
                                         'same_arguments_on_two_functions': 0.1, 'same_binding_other_split': 0.1,
-                                        'cached_result_is_None': 0.15, 'cached_result_is_falsy': 0.3, 'cached_result_is_report': 0.3,
-                                        'hash_colliding_arguments': 0.3}),
+                                        'cached_result_is_None': 0.07, 'cached_result_is_falsy': 0.3, 'cached_result_is_report': 0.3,
+                                        'hash_colliding_arguments': 0.3, 'container_twin_in_history': 0.3,
+                                        'empty_container_twins_in_history': 0.05, 'list_tuple_twin_in_history': 0.05, 'dict_vs_pairs_twin_in_history': 0.05,
+                                        'nested_container_twin_in_history': 0.03, 'hit_with_dict_in_other_insertion_order': 0.03}),
     Sub('same_code', lambda tier: s_same_code(), run_same_code, quick=800, thorough=15000,
         rule='2-3 functions produced by ONE factory (def or lambda: they share one code object) with different default values and different closures, '
              'bare or under 1-2 decorators; 3-8 operations in random interleaved order: getargspec, getcallargs + call_with_callargs, or a call, each judged '
              'against that function\'s own defaults (own binding model, direct call, inspect); finally every function must still report its own defaults. '
              'non-trivial = a call / binding that leaves a defaulted parameter unfilled on a function whose defaults differ from the first-inspected one',
         floor=0.3, class_floors={'default_left_unfilled_on_function_inspected_later': 0.3, 'form=lambda': 0.2, 'form=def': 0.2, 'interleaved': 0.3,
-                                 'falsy_default': 0.3, 'same_function_bound_or_called_twice': 0.5}),
+                                 'falsy_default': 0.3, 'same_function_bound_or_called_twice': 0.5,
+                                 'cached': 0.1, 'container_twins_in_cached_history': 0.03}),
     EnumSub('large', enum_large, run_large, chunks=8,
         rule='size thresholds (enumerated completely in both tiers): (a) one cached function given N in {64,65,100,128,129,200,256,300} distinct argument combinations (positional ints, keyword, '
              '(0,i,0) = same length/first/last, positional+keyword, lists, and hash-colliding families: ..,-1 / ..,-2 positional and keyword, i / i+2**61-1, [-1,i] / [-2,i]), then all of them again in the same / reversed / rotated order: N evaluations '
